@@ -809,6 +809,11 @@ class NetCDF4(FileHandler):
             group, _ = NetCDF4._split_path(full_name)
             group_vars[group].append(full_name)
 
+        # The global attributes are read from the root group, so it has to be
+        # written even if it does not contain any variable:
+        if data.attrs and None not in group_vars:
+            group_vars[None] = []
+
         # If we ware writing out multiple groups, we do not want to overwrite
         # the last file:
         user_mode = kwargs.pop("mode", "w")
